@@ -97,6 +97,9 @@ func paramShape(items []paramItem) string {
 
 var outTexts = []string{
 	"plain", "  padded \n", "two words", "line1\nline2\n", `q"uote`, "it's", "a=b", "$HOME ${X} $1", `back\slash\n`, "héllo ✓ wörld", "\ttab\tsep\t", "\n\n", "", "x;y|z&w", "trailing\r\n",
+	// backslash pairs in front of t, n, r (UNC paths, escaped Windows paths): the un-escaping of the command
+	// text an author wrote must not reach into substituted values
+	`\\nas01\share\reports`, `C:\\tools\\new\\run`, `a\\tb\\nc\\rd`,
 }
 
 func outShape(s string) string {
